@@ -32,6 +32,7 @@ pub trait TemplateRegistry: Sized {
         tera.register_filter("escape_js", escape_js_filter);
         tera.register_filter("add_types_prefix", add_types_prefix_filter);
         tera.register_filter("ts_key", ts_key_filter);
+        tera.register_filter("ts_member", ts_member_filter);
 
         // register registry specific templates
         Self::register_templates(&mut tera)?;
@@ -86,6 +87,18 @@ fn ts_key_filter(value: &Value, _args: &HashMap<String, Value>) -> tera::Result<
         }
     } else {
         Err("ts_key filter expects a string".into())
+    }
+}
+
+/// Filter to render a member access matching `ts_key`: `.name` for a plain identifier,
+/// `["na-me"]` for anything else
+fn ts_member_filter(value: &Value, args: &HashMap<String, Value>) -> tera::Result<Value> {
+    let key = ts_key_filter(value, args)?;
+    let key = key.as_str().unwrap_or_default();
+    if key.starts_with('"') {
+        Ok(Value::String(format!("[{}]", key)))
+    } else {
+        Ok(Value::String(format!(".{}", key)))
     }
 }
 
